@@ -3,7 +3,7 @@
 PLAN = {
     'C01': dict(level='proof', engines=['sumlib', 'segnative', 'tasknative', 'matchnative', 'beatstruct', 'libconf']),
     'C02': dict(level='proof', engines=['tasknative', 'chordevalnative']),
-    'C03': dict(level='proof', engines=['bundles', 'multipitchnative']),
+    'C03': dict(level='proof', engines=['bundles', 'multipitchnative', 'chordnative']),
     'C04': dict(level='proof', engines=['keynative', 'matchnative', 'tasknative', 'multipitchnative', 'libconf']),
     'C05': dict(level='other', engines=['matchnative', 'bundles', 'multipitchnative'],
                 explanation='The property is about the matcher bodies (Hopcroft-Karp, hit-window search, note-matching matrices); these are checked by exhaustive '
